@@ -109,6 +109,10 @@ class ADIWorld(World):
             return NOT_HANDLED
         if bn == "xt::all":
             return "all"
+        if bn == "xt::range":
+            return ("range", V(0), V(1))
+        if bn == "xt::noalias":
+            return V(0)             # assignment through a view is element-wise either way in this model
         if bn == "xt::view":
             arr = V(0)
             if not is_arr(arr):
@@ -270,6 +274,8 @@ def run(db, chk):
                        "recursion)", "floating-point rounding"]
     chk.rule("C14-D1", "ADI factor tables: uniform K/2/d^2 for a scalar diffusivity, face averages in the "
              "interior for an array, the two agreeing for a uniform array (symbolic identities)", min_instances=3)
+    chk.rule("C14-D4", "after every sequence of three set_k_coef calls (two scalars, two arrays) on the same "
+             "object the factor tables and k_coef() are those of the diffusivity set last", min_instances=64)
     chk.rule("C14-D2a", "Thomas solver: the returned vector satisfies the tridiagonal system (sizes 3..8, thorough 3..10, identity end rows as produced by the sweep)",
              min_instances=4)
     chk.rule("C14-D2b", "line sweep: assembled systems = implicit Peaceman-Rachford half step with "
@@ -337,6 +343,75 @@ def run(db, chk):
             chk.ob("C14-D1", "[%s] set_factors with a %s diffusivity on a %dx%d grid" % (uname, mode, nr, nc), not bad,
                    where=fns["set_factors"][0].ploc, function=fns["set_factors"][0].bn, construct="factors(%s)" % mode,
                    detail="; ".join(bad[:2])[:400], extra={"unit": uname})
+
+        # ------------------------------------------------------------------ D4: setter histories
+        setters = {}
+        for f in fns.get("set_k_coef", []):
+            t0 = f.type(f.params[0]["t"]) if f.params else ""
+            setters["array" if "xt::" in t0 else "scalar"] = f
+        if set(setters) != {"scalar", "array"}:
+            raise AnalysisBroken("C14: set_k_coef overloads (scalar, array) not both instantiated in %s" % uname)
+        nr, nc = 3, 4
+        K1, K2 = Dual.sym("K1", 0.3), Dual.sym("K2", 0.45)
+        A1 = sym_array("k", (nr, nc), lambda r, c: 0.2 + 0.03 * r + 0.05 * c)
+        A2 = sym_array("q", (nr, nc), lambda r, c: 0.25 + 0.02 * r + 0.04 * c)
+        moves = {"scalar K1": ("scalar", K1), "scalar K2": ("scalar", K2), "array k": ("array", A1),
+                 "array q": ("array", A2)}
+
+        def expected(kind, val, r, c):
+            dy2, dx2 = B("*", dy, dy), B("*", dx, dx)
+            if kind == "scalar":
+                return ([B("/", B("*", val, Dual.of(0.5)), dy2)] * 3, [B("/", B("*", val, Dual.of(0.5)), dx2)] * 3)
+            k = val.get
+            fr_, fc_ = B("/", Dual.of(0.25), dy2), B("/", Dual.of(0.25), dx2)
+            return ([B("*", fr_, B("+", k((r - 1, c)), k((r, c)))),
+                     B("*", B("/", fr_, 2), B("+", B("+", k((r - 1, c)), B("*", 2, k((r, c)))), k((r + 1, c)))),
+                     B("*", fr_, B("+", k((r, c)), k((r + 1, c))))],
+                    [B("*", fc_, B("+", k((r, c - 1)), k((r, c)))),
+                     B("*", B("/", fc_, 2), B("+", B("+", k((r, c - 1)), B("*", 2, k((r, c)))), k((r, c + 1)))),
+                     B("*", fc_, B("+", k((r, c)), k((r, c + 1))))])
+        for seq in itertools.product(sorted(moves), repeat=3):
+            n_sc += 1
+            this = make_this(nr, nc, NDArr((0,), None, "m_factors_row"), NDArr((0,), None, "m_factors_col"),
+                             k_scalar=Dual.sym("Kinit", 0.11))
+
+            class SetWorld(ADIWorld):
+                def before_call(self, it, fn, call, callee, frame):
+                    nm = callee.bn.split("::")[-1]
+                    if nm == "shape" and "grid" in (callee.cls or ""):
+                        return PyVec([nr, nc])
+                    return ADIWorld.before_call(self, it, fn, call, callee, frame)
+            it = Interp(SetWorld([dy, dx], [nr, nc]), max_steps=2000000)
+            bad = []
+            try:
+                for mv in seq:
+                    kind, val = moves[mv]
+                    it.call_fn(setters[kind], this, [val.copy() if kind == "array" else val, None])
+            except (ThrowEx, UninitUse, ShapeMismatch) as ex:
+                bad.append("%s" % ex)
+            if not bad:
+                kind, val = moves[seq[-1]]
+                FR, FC = this.fields["m_factors_row"], this.fields["m_factors_col"]
+                for r in range(1, nr - 1):
+                    for c in range(1, nc - 1):
+                        wr, wc = expected(kind, val, r, c)
+                        for j in range(3):
+                            if not same(FR.get((j, r, c)), wr[j]) or not same(FC.get((j, r, c)), wc[j]):
+                                bad.append("factors (%d,%d,%d) are not those of the diffusivity set last" % (j, r, c))
+                                break
+                if not bad:
+                    kc = it.rv(it.call_fn(fns["k_coef"][0], this, [])) if "k_coef" in fns else None
+                    if kc is not None and is_arr(kc):
+                        for r in range(nr):
+                            for c in range(nc):
+                                w_ = val if kind == "scalar" else val.get((r, c))
+                                if not same(kc.get((r, c)), w_):
+                                    bad.append("k_coef() does not return the diffusivity set last")
+                                    break
+            chk.ob("C14-D4", "[%s] set_k_coef sequence: %s" % (uname, " ; ".join(seq)), not bad,
+                   where=setters[moves[seq[-1]][0]].ploc, function=setters[moves[seq[-1]][0]].bn,
+                   construct="setter-history", detail="; ".join(bad[:2])[:300], extra={"unit": uname},
+                   sample=(n_sc % 7 == 0))
 
         # ------------------------------------------------------------------ D2a: Thomas solver
         st = fns["solve_tridiagonal"][0]
